@@ -1,5 +1,6 @@
 import QcoVerif.Properties.C16
 import QcoVerif.Lemmas.ConnSrc
+import QcoVerif.Lemmas.FreqSrc
 /-
   C16 — tie to the SOURCE TEXT (DESIGN.md §2.3b).  Kept in a file of its own that nothing imports.
 -/
@@ -16,5 +17,50 @@ theorem mutually_allowed_matches_source (allowed : Nat → List Nat) (ops : List
   ConnSrc.mutually_allowed_matches_source allowed ops conn hc
 
 theorem mutually_allowed_is_static : Gen_get_mutually_allowed.decorators = ["staticmethod"] := by decide
+
+/-! ### frequency ordering and the moving side of a gate, as written
+
+`is_higher_than` calls `self.is_equal_to(other)`, `is_lower_than` calls both, `on_moving_side` calls `is_higher_than`, the two
+selectors call `on_moving_side`: every such call RUNS the translated source of the callee (`FreqSrc.env1/env2/connEnv/connEnv2`), so
+the chain from the selectors down to the enum comparison is source text all the way.  The edge methods `contains`,
+`get_connected_qubit_id` are answered by the model's `Edge.has`, `Edge.other` (their own source ties: C19). -/
+
+theorem freq_is_equal_to_matches_source (a b : Conn.Freq) :
+    callFn {} Freq_is_equal_to [FreqSrc.freqObj a, FreqSrc.freqObj b] = .bool (a == b) :=
+  FreqSrc.is_equal_to_matches_source a b
+
+theorem freq_is_higher_than_matches_source (a b : Conn.Freq) :
+    callFn FreqSrc.env1 Freq_is_higher_than [FreqSrc.freqObj a, FreqSrc.freqObj b] = .bool (a.isHigher b) :=
+  FreqSrc.is_higher_than_matches_source a b
+
+theorem freq_is_lower_than_matches_source (a b : Conn.Freq) :
+    callFn FreqSrc.env2 Freq_is_lower_than [FreqSrc.freqObj a, FreqSrc.freqObj b] = .bool (a.isLower b) :=
+  FreqSrc.is_lower_than_matches_source a b
+
+/-- **`on_moving_side` as written = the model's `onMovingSide`**, for every qubit, every edge (either orientation, on the device
+    or not) and every frequency table `freqOf`. -/
+theorem on_moving_side_matches_source (q : Conn.Qubit) (e : Conn.Edge) (conn : Val) :
+    callFn FreqSrc.connEnv Conn_on_moving_side [.int q, FreqSrc.edgeVal e, conn] = .bool (Conn.onMovingSide q e) :=
+  FreqSrc.on_moving_side_matches_source q e conn
+
+theorem get_higher_frequency_matches_source (e : Conn.Edge) (conn : Val) :
+    callFn FreqSrc.connEnv2 Conn_get_higher_frequency_qubit_id [FreqSrc.edgeVal e, conn] =
+      .int (if Conn.onMovingSide e.1 e then e.1 else e.other e.1) :=
+  FreqSrc.get_higher_matches_source e conn
+
+theorem get_lower_frequency_matches_source (e : Conn.Edge) (conn : Val) :
+    callFn FreqSrc.connEnv2 Conn_get_lower_frequency_qubit_id [FreqSrc.edgeVal e, conn] =
+      .int (if !Conn.onMovingSide e.1 e then e.1 else e.other e.1) :=
+  FreqSrc.get_lower_matches_source e conn
+
+/-- the ordering the source implements is a strict total order on the three groups (what "lower-frequency member" needs). -/
+theorem freq_order_strict_total (a b : Conn.Freq) :
+    (a.isHigher b = true ∨ a.isLower b = true ∨ a = b) ∧ ¬ (a.isHigher b = true ∧ a.isLower b = true) ∧
+    (a.isHigher b = b.isLower a) := by
+  cases a <;> cases b <;> decide
+
+/-- non-vacuity: a device edge whose first qubit is the moving one, and one whose first qubit is not. -/
+example : ∃ e ∈ Conn.deviceEdges, Conn.onMovingSide e.1 e = true := by decide
+example : ∃ e ∈ Conn.deviceEdges, Conn.onMovingSide e.1 e = false := by decide
 
 end Qco.C16
